@@ -42,6 +42,10 @@ pub enum Op11 {
     UndecodedDrop { attach: u8, multi: bool },
     Route { msgs: u8 },
     ProxyCycle { routes: u8 },
+    /// a message with `attach` attachments is received by a process that has only `free`
+    /// descriptor numbers left (RLIMIT_NOFILE): whatever the receive returns, nothing the kernel
+    /// installed may stay behind
+    FdLimit { attach: u8, free: u8 },
     /// connect to a name that does not exist and is `len` bytes long (longer than a socket address holds)
     ConnectLong { len: u16 },
     /// channel ends, a region and a receiver set dropped by an unwinding (panicking) owner
@@ -164,6 +168,7 @@ impl Prop for C11 {
             1 => (0u8..3).prop_map(|routes| Op11::ProxyCycle { routes }),
             1 => (0u8..4, 0u8..4).prop_map(|(routes, keep)| Op11::ProxyDrop { routes, keep }),
             1 => Just(Op11::SpawnChild),
+            1 => (2u8..9, 0u8..9).prop_map(|(attach, free)| Op11::FdLimit { attach, free }),
             1 => any::<bool>().prop_map(|with_set| Op11::PanicDrop { with_set }),
             1 => Just(Op11::Plant),
             1 => (1u32..20000).prop_map(|len| Op11::RegionCloneDrop { len }),
@@ -300,6 +305,60 @@ fn run(case: &Case, warmup: bool) -> Result<Outcome, Failure> {
                             stale_names.push(name.clone());
                             let r = IpcSender::<Node>::connect(name);
                             ensure!(r.is_err(), "leak:connect-to-stale-name-succeeded", "connect to the name of a dropped server returned Ok");
+                        }
+                    },
+                    Op11::FdLimit { attach, free } => {
+                        if os {
+                            failing_ops += 1;
+                            kinds.insert("fd-limit");
+                            let (attach, free) = (*attach, *free);
+                            let child = sandbox::fork_child(move |w| {
+                                use std::io::Write;
+                                let base = fdsnap::count_fds();
+                                let (tx, rx) = match ipc::channel::<Node>() {
+                                    Ok(x) => x,
+                                    Err(_) => return 9,
+                                };
+                                let mut items = attachments(attach);
+                                items.push(Node::U32(7));
+                                if tx.send(Node::List(items)).is_err() {
+                                    return 9;
+                                }
+                                // leave exactly `free` descriptor numbers below the limit
+                                let limit: u64 = 200;
+                                let lim = libc::rlimit { rlim_cur: limit, rlim_max: limit };
+                                if unsafe { libc::setrlimit(libc::RLIMIT_NOFILE, &lim) } != 0 {
+                                    return 9;
+                                }
+                                let mut fillers = vec![];
+                                while (fdsnap::count_fds() as u64) + (free as u64) < limit {
+                                    let fd = unsafe { libc::dup(2) };
+                                    if fd < 0 {
+                                        break;
+                                    }
+                                    fillers.push(fd);
+                                }
+                                let got = rx.try_recv();
+                                drop(got);
+                                for fd in fillers {
+                                    ip::raw_close(fd);
+                                }
+                                drop(rx);
+                                drop(tx);
+                                let end = fdsnap::count_fds();
+                                if end != base {
+                                    let _ = write!(w, "{} descriptors before, {} after ({} attachments, {} free numbers): {:?}", base, end, attach, free, fdsnap::fd_map());
+                                    return 3;
+                                }
+                                0
+                            });
+                            let (end, report) = child.wait(Duration::from_secs(sandbox::watchdog_secs()));
+                            match end {
+                                sandbox::ChildEnd::Exited(0) => {},
+                                sandbox::ChildEnd::Exited(3) => fail!("leak:descriptors", "a message was received by a process that was short of descriptor numbers; afterwards {}", String::from_utf8_lossy(&report)),
+                                sandbox::ChildEnd::Exited(9) | sandbox::ChildEnd::TimedOut => {},
+                                other => fail!("leak:receive-under-descriptor-shortage-crashed", "the receiving process ended {:?}: {}", other, String::from_utf8_lossy(&report)),
+                            }
                         }
                     },
                     Op11::ConnectLong { len } if !os => {
